@@ -72,7 +72,7 @@ func runCase(c *fw.Ctx, idx int, count bool) {
 	m := lrun.RunModel(chunk, cfg)
 	if m.Abort != "" {
 		c.Inconclusive("model:" + m.Abort)
-		if strings.Contains(m.Abort, "budget") || strings.Contains(m.Abort, "depth") || strings.Contains(m.Abort, "overflow") {
+		if lrun.ResourceAbort(m.Abort) {
 			// the model cannot vouch for termination: do not run the implementation on it
 			c.End(false, "")
 			return
